@@ -691,6 +691,9 @@ fn arb_lit() -> BoxedStrategy<String> {
         1 => "[a-z ]{0,4}'[a-z ]{0,4}",
         1 => "[a-z ]{0,4}\"[a-z ]{0,4}",
         1 => "[a-z]{0,3}[\u{e9}\u{4e2d}\u{1f600}][a-z]{0,3}",
+        // the escape pairs the grammar knows (backslash, either quote, n), in any position: the
+        // literal's text is kept as written, so these are part of the value
+        2 => prop::collection::vec(prop::sample::select(vec!["a", "b ", " ", "C:", "\\\\", "\\\"", "\\'", "\\n", "\u{e9}"]), 0..6).prop_map(|v| v.concat()),
         1 => Just(String::new()),
     ]
     .boxed()
